@@ -233,6 +233,13 @@ def node_of(address):
 
 # ---------------------------------------------------------------------------
 WORKBOOKS = {
+    # an unbounded range one of whose cells is a formula (C09: failing member)
+    'aliasf': dict(
+        inputs={'A1': 1},
+        formulas={'A2': ('Plus', ['A1'], 1), 'B1': ('SumR', 'A:A'), 'C1': ('Plus', ['B1'], 0),
+                  'B2': ('Plus', ['A1'], 10)},
+        ranges={'A1:A2': [['A1'], ['A2']]},
+        aliases={'A:A': 'A1:A2'}),
     # two sheets: formulas and a range on the second sheet, references across
     'twosheet': dict(
         inputs={'A1': 1, 'T!A1': 2, 'T!A2': 3},
